@@ -344,7 +344,10 @@ var badListenAddr = "no-port-here"
 var targetAddrs = []string{"tcp://192.168.100.10:8888", "udp://10.0.0.7:53"}
 
 type thrIn struct {
-	Kind   string `json:"kind"` // "act" | "rev" | "tick" | "list" (the code's owner lists its codes)
+	// "act" | "rev" | "tick" | "list" (the code's owner lists its codes) | "stall" (listen = seconds) |
+	// "cancel" (listen = index of the caller whose SERVICE CONTEXT is cancelled: node shutdown / service Close racing with
+	// the call in flight; the call itself is not interrupted by the harness, the code decides what to do)
+	Kind   string `json:"kind"`
 	Listen int64  `json:"listen"`
 	LAddr  int    `json:"laddr"` // index into listenAddrs; -1 = malformed address
 	Fault  int    `json:"fault"` // forward-write index that fails, -1 none
@@ -628,7 +631,7 @@ func runSched(c caseIn) *caseOut {
 	pseudo := make([]bool, n) // "tick" (real expiry) and "stall" (the store's logical clock advances) are not callers
 	stalled := make([]bool, n)
 	for i, t := range c.Threads {
-		pseudo[i] = t.Kind == "tick" || t.Kind == "stall"
+		pseudo[i] = t.Kind == "tick" || t.Kind == "stall" || t.Kind == "cancel"
 	}
 	tickIdx := -1
 	for i, t := range c.Threads {
@@ -682,6 +685,7 @@ func runSched(c caseIn) *caseOut {
 	results := make([]error, n)
 	mapIDs := make([]string, n)
 	retListen := make([]int64, n)
+	cancels := make([]context.CancelFunc, n)
 	var mu sync.Mutex
 	owner := map[string]int{}
 	shared := c.World == "shared"
@@ -755,7 +759,9 @@ func runSched(c caseIn) *caseOut {
 		if shared {
 			sk = sharedStack
 		} else {
-			sk = newStack(ctx, st, nodeStore, c.QMax)
+			cctx, ccancel := context.WithCancel(ctx) // this caller's service (and everything built for it) has its own context
+			cancels[i] = ccancel
+			sk = newStack(cctx, st, nodeStore, c.QMax)
 		}
 		go func(i int, t thrIn, sk *stack) {
 			defer close(done[i])
@@ -820,6 +826,16 @@ func runSched(c caseIn) *caseOut {
 		}
 		pos := len(out.Sched)
 		out.Sched = append(out.Sched, i)
+		if i >= 0 && i < n && c.Threads[i].Kind == "cancel" {
+			if !stalled[i] {
+				stalled[i] = true
+				if k := int(c.Threads[i].Listen); k >= 0 && k < n && cancels[k] != nil {
+					cancels[k]()
+					runtime.Gosched()
+				}
+			}
+			return
+		}
 		if i >= 0 && i < n && c.Threads[i].Kind == "stall" {
 			if !stalled[i] {
 				stalled[i] = true
@@ -1031,7 +1047,7 @@ func runSched(c caseIn) *caseOut {
 			out.Threads = append(out.Threads, to)
 			continue
 		}
-		if t.Kind == "stall" {
+		if t.Kind == "stall" || t.Kind == "cancel" {
 			if stalled[i] {
 				to.Res = 100
 			}
@@ -1284,6 +1300,13 @@ func gen() {
 	}
 	fmt.Printf("Definition key_ttl_s : list (nat * N) := [%s].\n", strings.Join(kt, "; "))
 	fmt.Printf("Definition code_window_s : N := %d%%N.\n", 600)
+	// every store the repositories can be given in this tree provides the atomic set-if-absent (so Claim / AcquireAdmission
+	// never take a non-atomic path): memory store, hybrid storage over it
+	var ms storage.Storage = memory.New(ctx)
+	_, memCAS := ms.(storage.CASStore)
+	var hy storage.Storage = hs
+	_, hyCAS := hy.(storage.CASStore)
+	fmt.Printf("Definition shipped_stores_have_cas : bool := %v.\n", memCAS && hyCAS)
 	// the claim marker must outlive the code's remaining activation window (measured when the SetNX arrives)
 	fmt.Printf("Definition claim_lifetime_covers_window : bool := %v.\n", claimTTL > 0 && claimTTL >= claimRemaining)
 }
